@@ -1169,8 +1169,8 @@ fn gen_vm_op(rng: &mut Rng) -> VmOp {
         // arithmetic overloads run in a nested loop inside run_add (call_metamap_arithmetic_op):
         // the body of run_binary_op is native code holding 3 registers (`eop:2:0:n` = 2 + frame-base
         // slot = 3 pushed registers, result register first) that starts a nested loop (`nest`); the
-        // failed overload's frame registers (NewFrame 4) stay, pop_frame of a barrier frame does not
-        // resize
+        // failed overload's frame registers (NewFrame 4) are still live when the `?` returns (pop_frame
+        // of a barrier frame does not resize); the run_binary_op wrapper (fix d4834c0) truncates them
         14 => mk("add", "o_ok", "num", "eop:2:0:n nest:1:1 nf:3 ret nr:1", true, "", 0),
         15 => mk("add", "o_bad", "num", "eop:2:0:n nest:1:1 nf:4 raise:1 nr:0", false, "op-early-return", 7),
         16 => mk("less", "num", "str", "ed:3:0", false, "op-early-return", 3),
@@ -1327,7 +1327,7 @@ fn witness_f3() -> (bool, String) {
     let o_bad = vm.exports().get("o_bad").unwrap();
     let _ = vm.run_binary_op(BinaryOp::Add, o_bad, KValue::Number(1.into()));
     let b = vm.verif_stack_sizes();
-    (a.0 == 3 && b.0 == 10, format!("registers.len after run_binary_op(Add, 1, 'x') = {}, after a second failing run_binary_op(Add, o, 1) with a throwing @+ = {}", a.0, b.0))
+    (a.0 != 0 || b.0 != 0, format!("registers.len after run_binary_op(Add, 1, 'x') = {}, after a second failing run_binary_op(Add, o, 1) with a throwing @+ = {}", a.0, b.0))
 }
 
 fn write_modules(dir: &Path) {
@@ -1571,7 +1571,8 @@ fn main() {
         for _ in 0..n {
             let op = gen_vm_op(&mut r);
             // generation filter (F-C07-3): keep the accumulated residue far from the u8 wrap
-            if op.residue_class == "op-early-return" {
+            // (only relevant while F-C07-3 is open)
+            if op.residue_class == "op-early-return" && f3_open {
                 leaks += 1;
                 if leaks > 20 {
                     continue;
@@ -1580,6 +1581,22 @@ fn main() {
             ops.push(op);
         }
         run_vm_history(&mut cx, ops, &format!("vm:{hi}"), f3_open);
+    }
+
+    // 3c. F-C07-3 regression shape: 120 failing operator calls, then random operations
+    if !f3_open {
+        let mut r = rng.fork();
+        let mut ops: Vec<VmOp> = vec![];
+        while ops.len() < 120 {
+            let op = gen_vm_op(&mut r);
+            if op.residue_class == "op-early-return" {
+                ops.push(op);
+            }
+        }
+        for _ in 0..10 {
+            ops.push(gen_vm_op(&mut r));
+        }
+        run_vm_history(&mut cx, ops, "vm:120-failing-operator-calls", f3_open);
     }
 
     // 4. listed findings: replay the witnesses
